@@ -96,6 +96,25 @@ func c02Roundtrip(c *core.Ctx, k *core.Case) {
 		path = pathDirect
 	}
 	c.Eval(1)
+	// the same message as an application builds it: an element of length 0 whose contents
+	// were never set has a nil Buffer, not an empty one; the encoding is the same
+	if ctor, err := buildMsg(def, ref.Fields); err == nil {
+		n := 0
+		walkBytes(reflect.ValueOf(ctor), func(v reflect.Value) {
+			if v.Len() == 0 && !v.IsNil() && v.CanSet() {
+				v.Set(reflect.Zero(v.Type()))
+				n++
+			}
+		})
+		if n > 0 {
+			var b1, b2 bytes.Buffer
+			e1, e2 := msgEncoder(orig, def.Name)(&b1), msgEncoder(ctor, def.Name)(&b2)
+			c.Count("encodes_with_nil_contents", 1)
+			if (e1 == nil) != (e2 == nil) || !bytes.Equal(b1.Bytes(), b2.Bytes()) {
+				c.Fail(k, "nil-contents-encode-differently:"+def.Name, fmt.Sprintf("%s with %d empty element(s): encoding with empty non-nil contents gives %s (err %v), with nil contents %s (err %v)", def.Name, n, hx(b1.Bytes()), e1, hx(b2.Bytes()), e2))
+			}
+		}
+	}
 	hdr := k.B[0][:def.HeaderLen()]
 	var wire []byte
 	var back interface{}
@@ -503,13 +522,22 @@ func init() {
 
 // ---- C03 -------------------------------------------------------------------
 
-// oracle "fixedpoint": B=[input] I=[canonical(0/1)]
+// oracle "fixedpoint": B=[input] I=[canonical(0/1), (security header type the caller recorded in the Message)]
 func c03FixedPoint(c *core.Ctx, k *core.Case) {
 	b := k.B[0]
 	in := cloneB(b)
 	d1 := nas.NewMessage()
+	if len(k.I) > 1 && k.I[1] > 0 {
+		// the Message is the one the security layer filled in before it handed the plain part on
+		d1.SecurityHeader = nas.SecurityHeader{ProtocolDiscriminator: 0x7e, SecurityHeaderType: uint8(k.I[1]), MessageAuthenticationCode: 0x0a0b0c0d, SequenceNumber: 7}
+		c.Count("messages_with_recorded_security_header", 1)
+	}
 	c.Eval(1)
-	if err := d1.PlainNasDecode(&in); err != nil {
+	err0 := d1.PlainNasDecode(&in)
+	for i := range in {
+		in[i] = 0xa5 // the receive buffer is reused once the decoder has returned
+	}
+	if err := err0; err != nil {
 		c.Count("rejected_inputs", 1)
 		if k.I[0] == 1 {
 			c.Fail(k, "canonical-input-rejected", fmt.Sprintf("a canonical encoding was rejected: %v (input %s)", err, hx(b)))
@@ -534,6 +562,7 @@ func c03FixedPoint(c *core.Ctx, k *core.Case) {
 	e1 = cloneB(e1)
 	in2 := cloneB(e1)
 	d2 := nas.NewMessage()
+	d2.SecurityHeader = d1.SecurityHeader
 	if err := d2.PlainNasDecode(&in2); err != nil {
 		c.Fail(k, "redecode-error:"+mn, fmt.Sprintf("re-encoding of %s does not decode: %v (input %s, re-encoding %s)", mn, err, hx(b), hx(e1)))
 		return
@@ -615,6 +644,14 @@ func init() {
 						canon = 0
 					}
 					k := &core.Case{Oracle: "fixedpoint", Target: "nas.Message.PlainNasDecode", B: [][]byte{b}, I: []int64{canon}}
+					if i%4 == 1 {
+						// a Message in which the caller recorded a security header; for 5GMM half of
+						// these inputs carry a security header type nibble of their own in octet 2
+						k.I = append(k.I, int64(1+i/4%4))
+						if def.Family == "GMM" && i%8 == 1 && len(b) > 1 {
+							b[1] = b[1]&0xf0 | byte(1+i/8%4)
+						}
+					}
 					before := c.Report().Counters["accepted_inputs"]
 					c.Do(k)
 					accepted := c.Report().Counters["accepted_inputs"] > before
